@@ -8,6 +8,7 @@ import (
 	"os"
 
 	"verif/checks/c09"
+	"verif/checks/c11"
 	"verif/checks/c12"
 	"verif/engine/report"
 )
@@ -20,6 +21,7 @@ type check struct {
 
 var checks = map[string]check{
 	"C09": {"fault_enumeration", c09.Run, c09.Replay},
+	"C11": {"model_checking", c11.Run, c11.Replay},
 	"C12": {"model_checking", c12.Run, c12.Replay},
 }
 
